@@ -114,12 +114,21 @@ type Ops struct {
 	pending    map[planKey]*go9p.SrvReq
 	destroys   map[*go9p.SrvFid]int
 	flushModes map[planKey]string
-	active     map[*go9p.SrvReq]bool // requests currently inside a callback
+	active     map[*go9p.SrvReq]bool     // requests currently inside a callback
+	byKey      map[planKey]*go9p.SrvReq  // the last request seen for (conn, tag)
+	flushGates map[planKey]chan struct{} // Flush(conn, tag) blocks until the channel is closed
 	Dotu       bool
 }
 
 // NewPlan returns the default plan: answer success at once.
 func NewPlan() *Plan { return &Plan{WalkN: -1, ReadN: -1} }
+
+// SetFlushGate makes the Flush callback for (conn, tag) block until gate is closed (a slow FlushOp).
+func (o *Ops) SetFlushGate(conn int, tag uint16, gate chan struct{}) {
+	o.mu.Lock()
+	o.flushGates[planKey{conn, tag}] = gate
+	o.mu.Unlock()
+}
 
 // SetFlushMode says what the Flush callback does when asked to flush (conn, tag):
 // "cancel" calls req.Flush(), anything else only logs.
@@ -131,7 +140,7 @@ func (o *Ops) SetFlushMode(conn int, tag uint16, mode string) {
 
 func New(log *Log) *Ops {
 	return &Ops{Log: log, plans: map[planKey][]*Plan{}, aplans: map[string]*Plan{}, conns: map[*go9p.Conn]int{},
-		pending: map[planKey]*go9p.SrvReq{}, destroys: map[*go9p.SrvFid]int{}, flushModes: map[planKey]string{}, active: map[*go9p.SrvReq]bool{}}
+		pending: map[planKey]*go9p.SrvReq{}, destroys: map[*go9p.SrvFid]int{}, flushModes: map[planKey]string{}, active: map[*go9p.SrvReq]bool{}, byKey: map[planKey]*go9p.SrvReq{}, flushGates: map[planKey]chan struct{}{}}
 }
 
 // SetPlan registers the plan for the next request (conn, tag).
@@ -304,6 +313,7 @@ func (o *Ops) enter(req *go9p.SrvReq, op, args string) (int, *Plan, int64) {
 	o.Log.Add(Event{Kind: "op", Conn: conn, Tag: tag, Op: op, Fid: ft, Newfid: nt, Afid: at, User: uid(req.Fid), Args: args})
 	o.mu.Lock()
 	o.active[req] = true
+	o.byKey[planKey{conn, tag}] = req
 	o.mu.Unlock()
 	if p.Entered != nil {
 		close(p.Entered)
@@ -336,6 +346,14 @@ func (o *Ops) finish(req *go9p.SrvReq, conn int, p *Plan, op string, answer func
 		req.Respond()
 	}
 	o.Log.Add(Event{Kind: "exit", Conn: conn, Tag: tag, Op: op})
+}
+
+// Request returns the request object the implementation was last handed for (conn, tag): an implementation
+// may answer a request from any of its goroutines.
+func (o *Ops) Request(conn int, tag uint16) *go9p.SrvReq {
+	o.mu.Lock()
+	defer o.mu.Unlock()
+	return o.byKey[planKey{conn, tag}]
 }
 
 // Pending returns (and forgets) a request that was left unanswered by plan NoAnswer.
@@ -559,8 +577,12 @@ func (o *Ops) flush(req *go9p.SrvReq) {
 		// one that has not reached it yet, or has already left it, is none of its business
 		mode = "cancel-not-mine"
 	}
+	gate := o.flushGates[planKey{conn, tag}]
 	o.mu.Unlock()
 	o.Log.Add(Event{Kind: "flushcb", Conn: conn, Tag: tag, Op: "Flush", Info: mode})
+	if gate != nil {
+		<-gate
+	}
 	if mode == "cancel" {
 		req.Flush()
 	}
